@@ -57,7 +57,7 @@ def parse_callee(s):
     c.raw = s
     t = s.strip()
     c.impl_ty = None
-    if t.startswith('<') and not t.startswith('<impl '):
+    if t.startswith('<') and (not t.startswith('<impl ') or find_as(t[1:match_angle(t, 0)]) != -1):
         e = match_angle(t, 0)
         inner, rest = t[1:e], t[e + 1:]
         k = find_as(inner)
